@@ -133,6 +133,20 @@ package sdf
 //@   ensures negative_exactly_inside: forall v vector3.Float64 :: (f(v) < 0 <==>
 //@       abs(v.X() - position.X()) < bounds.X() / 2 && abs(v.Y() - position.Y()) < bounds.Y() / 2 && abs(v.Z() - position.Z()) < bounds.Z() / 2)
 
+// Rounded box: the box distance minus the roundness - negative exactly on the points closer than `roundness`
+// to the box (inside the box: whose largest q component is below it), with the same inside / outside values as Box
+// shifted by the roundness.
+//@ func RoundedBox$1
+//@   props C19
+//@   ensures inside_the_box_value: result + roundness < 0 ==> result + roundness == max(max(abs(v.X() - position.X()) - halfBounds.X(), abs(v.Y() - position.Y()) - halfBounds.Y()), abs(v.Z() - position.Z()) - halfBounds.Z())
+//@   ensures outside_the_box_distance: result + roundness >= 0 ==> sq(result + roundness) ==
+//@       sq(pos(abs(v.X() - position.X()) - halfBounds.X())) + sq(pos(abs(v.Y() - position.Y()) - halfBounds.Y())) + sq(pos(abs(v.Z() - position.Z()) - halfBounds.Z()))
+//@   ensures box_interior_is_inside: roundness > 0 &&
+//@       abs(v.X() - position.X()) < halfBounds.X() && abs(v.Y() - position.Y()) < halfBounds.Y() && abs(v.Z() - position.Z()) < halfBounds.Z() ==> result < 0
+//@   ensures negative_exactly_within_roundness_of_the_box: roundness >= 0 ==> (result < 0 <==>
+//@       (abs(v.X() - position.X()) < halfBounds.X() && abs(v.Y() - position.Y()) < halfBounds.Y() && abs(v.Z() - position.Z()) < halfBounds.Z()) ||
+//@       sq(pos(abs(v.X() - position.X()) - halfBounds.X())) + sq(pos(abs(v.Y() - position.Y()) - halfBounds.Y())) + sq(pos(abs(v.Z() - position.Z()) - halfBounds.Z())) < roundness * roundness)
+
 // min / max / negation preserve a common Lipschitz bound (used for union, intersection, subtraction).
 //@ lemma min_max_lipschitz(a1 float64, a2 float64, b1 float64, b2 float64, d float64)
 //@   props C19
